@@ -13,10 +13,11 @@ from vlib import core, rel
 from vlib.core import strlit, listlit, natlit, boollit
 from translate import c01_facts
 
-HEADER = """From SF Require Import Model.ChainCheckX.
+HEADER = """From SF Require Import Model.ChainStages Model.ChainCheckX.
 From Gen Require Import C01Facts.
 Open Scope string_scope.
-Definition check := check_x gen_cfg (deco_of decorator_table).
+Definition gen_g : gcfg := mkGcfg wrap_needed_group init_wraps_group group_agg_kind.
+Definition check := check_y gen_cfg gen_g (deco_of decorator_table).
 """
 
 TABLES = {
@@ -397,10 +398,153 @@ def apply_step(df, step, F):
     raise ValueError(step)
 
 
+# ---- exporter: sqlglot tree of a chain over the whole alphabet -> Coq `list stage` (fail-closed) --------------
+
+AGG_NODES = {"Sum": "ASum", "Min": "AMin", "Max": "AMax", "Avg": "AAvg"}
+
+
+def x_agg(item, exp):
+    """an aliased aggregate of a bare column -> ((fn, column), alias)"""
+    if not isinstance(item, exp.Alias):
+        raise rel.NotExportable("aggregate item without alias")
+    a = item.this
+    t = type(a).__name__
+    if isinstance(a, exp.Count):
+        if a.args.get("expressions") or a.args.get("big_int"):
+            raise rel.NotExportable("count with extra arguments")
+        if isinstance(a.this, exp.Star):
+            return f"((ACountStar, {strlit('*')}), {strlit(item.alias)})"
+        if isinstance(a.this, exp.Column) and not a.this.table:
+            return f"((ACount, {strlit(a.this.name)}), {strlit(item.alias)})"
+        raise rel.NotExportable("count argument")
+    if t in AGG_NODES and isinstance(a.this, exp.Column) and not a.this.table and set(k for k, v in a.args.items() if v) == {"this"}:
+        return f"(({AGG_NODES[t]}, {strlit(a.this.name)}), {strlit(item.alias)})"
+    raise rel.NotExportable(f"aggregate node {t}")
+
+
+def x_from_prev(sel, exp, prev_name):
+    frm = sel.args.get("from")
+    if frm is None or not isinstance(frm.this, exp.Table) or frm.this.name != prev_name:
+        raise rel.NotExportable(f"FROM is not the previous CTE ({prev_name})")
+    if sel.args.get("joins"):
+        raise rel.NotExportable("join")
+
+
+def x_where(sel, exp, cte_names):
+    where = sel.args.get("where")
+    return [rel.x_expr(w, exp, cte_names) for w in rel.flatten_and(where.this, exp)] if where else []
+
+
+def only_args(sel, allowed):
+    for k, v in sel.args.items():
+        if v and k not in allowed:
+            raise rel.NotExportable(f"select arg {k}")
+
+
+def x_stage(node, exp, prev_name, cte_names):
+    """one CTE (or the main query) -> list of Coq stage terms"""
+    if isinstance(node, exp.Union):
+        def branches(u):
+            if isinstance(u, exp.Union):
+                if type(u) is not exp.Union or u.args.get("distinct") is not False:
+                    raise rel.NotExportable("set operation other than UNION ALL")
+                for k, v in u.args.items():
+                    if v and k not in ("this", "expression", "distinct", "with"):
+                        raise rel.NotExportable(f"union arg {k}")
+                return branches(u.this) + branches(u.expression)
+            return [u]
+        parts = []
+        for b in branches(node):
+            if not isinstance(b, exp.Select):
+                raise rel.NotExportable("union branch is not a SELECT")
+            only_args(b, {"expressions", "from"})
+            x_from_prev(b, exp, prev_name)
+            parts.append(listlit([rel.x_item(i, exp, cte_names) for i in b.expressions]))
+        return ["(SU " + listlit(parts) + ")"]
+    if not isinstance(node, exp.Select):
+        raise rel.NotExportable(f"CTE body {type(node).__name__}")
+    grp = node.args.get("group")
+    if grp is not None or any(isinstance(i, exp.Alias) and isinstance(i.this, exp.AggFunc) for i in node.expressions):
+        only_args(node, {"expressions", "from", "where", "group", "order", "limit", "with"})
+        x_from_prev(node, exp, prev_name)
+        keys = []
+        if grp is not None:
+            for k, v in grp.args.items():
+                if v and k != "expressions":
+                    raise rel.NotExportable(f"group arg {k}")
+            for kx in grp.expressions:
+                if not isinstance(kx, exp.Column) or kx.table:
+                    raise rel.NotExportable("GROUP BY key is not a bare column")
+                keys.append(kx.name)
+        items = list(node.expressions)
+        for kname, it in zip(keys, items):
+            # the key columns come first in the select list, un-aliased or aliased to themselves
+            c = it.this if isinstance(it, exp.Alias) else it
+            if not isinstance(c, exp.Column) or c.name != kname or it.alias_or_name != kname:
+                raise rel.NotExportable("select list does not start with the GROUP BY keys")
+        if len(items) < len(keys):
+            raise rel.NotExportable("select list shorter than the GROUP BY keys")
+        aggs = [x_agg(it, exp) for it in items[len(keys):]]
+        names = keys + [it.alias for it in items[len(keys):]]
+        out = [f"(SG {listlit(x_where(node, exp, cte_names))} {listlit([strlit(k) for k in keys])} {listlit(aggs)})"]
+        if node.args.get("order") or node.args.get("limit"):
+            # ORDER BY / LIMIT of a grouped SELECT apply to its result: read as a pass-through block over it
+            tail = node.copy()
+            tail.set("group", None)
+            tail.set("where", None)
+            tail.set("expressions", [exp.column(n) for n in names])
+            out.append("(SB " + rel.x_select(tail, exp, prev_name, cte_names) + ")")
+        return out
+    last = node.expressions[-1] if node.expressions else None
+    if isinstance(last, exp.Alias) and isinstance(last.this, exp.Window):
+        only_args(node, {"expressions", "from", "where", "with"})
+        x_from_prev(node, exp, prev_name)
+        w = last.this
+        fn = w.this
+        if not (isinstance(fn, exp.RowNumber) or (isinstance(fn, exp.Anonymous) and str(fn.this).upper() == "ROW_NUMBER"
+                                                   and not fn.expressions)):
+            raise rel.NotExportable("window function is not ROW_NUMBER()")
+        for k, v in w.args.items():
+            if v and k not in ("this", "partition_by", "order"):
+                raise rel.NotExportable(f"window arg {k}")
+        part = []
+        for c in w.args.get("partition_by") or []:
+            if not isinstance(c, exp.Column) or c.table:
+                raise rel.NotExportable("PARTITION BY key is not a bare column")
+            part.append(c.name)
+        order = w.args.get("order")
+        okeys = [o.this.name for o in order.expressions
+                 if isinstance(o, exp.Ordered) and isinstance(o.this, exp.Column) and not o.args.get("desc")] if order else []
+        if okeys != part or (order and len(order.expressions) != len(part)):
+            raise rel.NotExportable("window ORDER BY is not the partition key")   # every row of a partition must tie
+        items = [rel.x_item(i, exp, cte_names) for i in node.expressions[:-1]]
+        return [f"(SW {listlit(x_where(node, exp, cte_names))} {listlit(items)} {listlit([strlit(c) for c in part])} {strlit(last.alias)})"]
+    return ["(SB " + rel.x_select(node, exp, prev_name, cte_names) + ")"]
+
+
+def export_stages(expression, exp):
+    """df.expression of a single-input chain over the whole alphabet -> Coq `list stage` term"""
+    ctes = list(expression.ctes)
+    if not ctes:
+        raise rel.NotExportable("no CTE (DataFrame never left INIT)")
+    names = rel.x_values_block(ctes[0].this, exp)
+    cte_names = [c.alias for c in ctes]
+    stages = ["(SB (pass_block " + listlit([strlit(n) for n in names]) + "))"]
+    prev = ctes[0].alias
+    for c in ctes[1:]:
+        stages += x_stage(c.this, exp, prev, cte_names)
+        prev = c.alias
+    main = expression.copy()
+    main.set("with", None)
+    stages += x_stage(main, exp, prev, cte_names)
+    return listlit(stages)
+
+
 def has_or(e) -> bool:
     return isinstance(e, tuple) and ((e[0] == "bin" and e[1] == "Or") or any(has_or(x) for x in e[1:]))
 
 
+N_CORPUS = 16
 ORDER_WITNESS = None   # the corpus program that exhibits the known engine-reordering finding keeps sequence mode
 
 
@@ -514,9 +658,28 @@ def make_programs(ctx):
         [("fillna", {"a": 0}), ("where", ("bin", "Eq", ("col", "a"), ("lit", 0)))],
         [("replace", ["a"], [(1, 7)]), ("agg", ["a"], [("count_star", "*", "n")])],
         [("orderBy", [(("col", "a"), False, None), (("col", "b"), False, None), (("col", "s"), False, None)]), ("toDF", ["b", "a", "s"])],
+        # dropna's helper column collides with an input column of the same name (known finding)
+        [("rename", "a", "num_nulls"), ("dropna", "any", None, [])],
+        # dropna(thresh=0) keeps every row in PySpark; sqlframe's guard raises (known finding)
+        [("dropna", "any", 0, ["a"])],
+        # dropDuplicates' helper column replaces an input column of the same name and is then dropped (known finding)
+        [("rename", "b", "row_num"), ("dropDup", ["a"])],
+        # inside the all-alphabet theorem's domain
+        [("where", ("bin", "Gt", ("col", "b"), ("lit", 0))), ("dropna", "any", None, ["a", "s"]), ("toDF", ["x", "y", "z"]),
+         ("unpivot", ["z"], ["x", "y"], "var", "val"), ("where", ("not", ("isnull", ("col", "val")))),
+         ("agg", ["z", "var"], [("sum", "val", "g0"), ("count_star", "*", "g1")]),
+         ("agg", [], [("max", "g1", "m")]), ("fillna", {"m": 0})],
+        [("dropna", "all", None, []), ("dropDup", ["s"])],
+        # inside the wide theorem's domain: dropna / toDF at several positions, dropna directly followed by
+        # where / fillna / dropna / distinct (all written into the block that still reads num_nulls)
+        [("where", ("bin", "Gt", ("col", "b"), ("lit", 0))), ("dropna", "any", None, ["a", "s"]), ("toDF", ["x", "y", "z"]),
+         ("orderBy", [(("col", "y"), True, False), (("col", "x"), False, True), (("col", "z"), False, None)]), ("limit", 3)],
+        [("dropna", "all", 2, []), ("where", ("isnull", ("col", "s"))), ("fillna", {"s": "q"}), ("dropna", "all", None, ["a"]),
+         ("dropna", "any", None, []), ("distinct",), ("toDF", ["num_nulls", "b", "c"]), ("rename", "num_nulls", "a")],
     ]
-    global ORDER_WITNESS
+    global ORDER_WITNESS, N_CORPUS
     ORDER_WITNESS = ORDER_WITNESS_PROGRAM
+    N_CORPUS = len(corpus)
     return corpus + progs, n_exh
 
 
@@ -531,6 +694,15 @@ ORDER_WITNESS_PROGRAM = [("orderBy", [(("col", "s"), False, False), (("col", "a"
 def signature(steps, flags):
     """shape predicate of a deviation (impl vs spec), used to match known findings"""
     kinds = [s[0] for s in steps]
+    cols = {"a": "int", "b": "int", "s": "str"}
+    for st in steps:
+        if st[0] == "dropna" and "num_nulls" in cols:
+            return "C01/dropna-on-frame-with-column-named-num_nulls"
+        if st[0] == "dropDup" and "row_num" in cols:
+            return "C01/dropDuplicates-on-frame-with-column-named-row_num"
+        if st[0] == "dropna" and st[2] is not None and st[2] < 1 and flags.get("raised") and flags.get("exc") == "RuntimeError":
+            return "C01/dropna-thresh-below-1-raises"
+        cols = cols_after(st, cols) or cols
     for i in range(len(kinds) - 1):
         if kinds[i + 1] == "toDF" and "orderBy" in kinds[: i + 1]:
             return "C01/toDF-after-orderBy-retargets-order"
@@ -562,7 +734,7 @@ def run(ctx: core.Ctx):
         proved = ctx.prove(
             [ctx.build + "/gen/C01Facts.v", core.COQ + "/props/C01.v"],
             dep_theories=["Base/Val.v", "Base/Expr.v", "Base/Sort.v", "Sql/Block.v", "Sql/Norm.v",
-                          "Model/Chain.v", "Model/ChainProof.v", "Model/ChainOrder.v", "Model/ChainCheck.v", "Model/ChainExt.v", "Model/ChainExtProof.v",
+                          "Model/Chain.v", "Model/ChainProof.v", "Model/ChainOrder.v", "Model/ChainCheck.v", "Model/ChainG.v", "Model/ChainExt.v", "Model/ChainExtProof.v", "Model/ChainStages.v",
                           "Model/ChainCheckX.v"])
     if not t1_ok:
         # the case files need Gen.C01Facts: fall back to the facts of the pinned source so that the search can run
@@ -581,14 +753,14 @@ def run(ctx: core.Ctx):
     items, metas = [], []
     hist_len, hist_kind, hist_mode, n_raise = {}, {}, {}, 0
     seen = set()
-    n_corpus_exh = 9 + n_exh
+    n_corpus_exh = N_CORPUS + n_exh
     for pi, steps in enumerate(progs):
         (mode, lim), steps = plan_mode(steps)
         for tname, rows in TABLES.items():
             key = (repr(steps), tname)
             if key in seen or not steps:
                 continue
-            if tname == "empty" and 9 <= pi < n_corpus_exh and len(steps) > 1:
+            if tname == "empty" and N_CORPUS <= pi < n_corpus_exh and len(steps) > 1:
                 continue      # bounded-exhaustive pairs run on the two non-empty tables; singles also on the empty one
             seen.add(key)
             exported, impl, exc = "None", "None", None
@@ -597,8 +769,7 @@ def run(ctx: core.Ctx):
                 for st in steps:
                     df = apply_step(df, st, F)
                 try:
-                    _, blocks = rel.export_chain(df.expression, exp)
-                    exported = f"(Some {blocks})"
+                    exported = f"(Some {export_stages(df.expression, exp)})"
                 except rel.NotExportable as ne:
                     exported = "None"
                     exc_export = str(ne)
@@ -612,7 +783,7 @@ def run(ctx: core.Ctx):
                 n_raise += 1
             cm = {"seq": "XSeq", "bag": "XBag", "sub": f"(XSubOf {natlit(lim if isinstance(lim, int) else 0)})",
                   "dedup": "(XDedup " + listlit([strlit(c) for c in (lim if isinstance(lim, list) else [])]) + ")"}[mode]
-            items.append(f"(mkXCase {rel.frame_coq(COLS0, rows)} {listlit([step_coq(s) for s in steps])} {cm} {exported} {impl})")
+            items.append(f"(mkYCase {rel.frame_coq(COLS0, rows)} {listlit([step_coq(s) for s in steps])} {cm} {exported} {impl})")
             metas.append({"steps": steps, "table": tname, "mode": mode, "exc": exc, "exported": exported != "None"})
             hist_len[len(steps)] = hist_len.get(len(steps), 0) + 1
             hist_mode[mode] = hist_mode.get(mode, 0) + 1
@@ -620,25 +791,41 @@ def run(ctx: core.Ctx):
                 hist_kind[s[0]] = hist_kind.get(s[0], 0) + 1
     ctx.log(f"{len(items)} cases from {len(progs)} programs ({n_exh} bounded-exhaustive), {n_raise} raised")
     res = ctx.cases("c01", HEADER, items, per_file=200, result_ty="str", fn="check")
-    n_t2 = n_dom = n_nontriv = 0
+    n_t2 = n_dom = n_nontriv = n_wdom = n_wdom_agree = n_ydom = n_ydom_agree = n_model = 0
+    hist_wdom = {}
+    devs = []
     t2_fail, model_fail = [], []
     for it, m, r in zip(items, metas, res):
-        if r is None or len(r) != 6:
+        if r is None or len(r) != 8:
             continue
         same_bag = r[5] == "1"
-        r = r[:5] + r[5]
+        wdom = r[6] == "1"
+        ydom = r[7] == "1"
+        n_wdom += wdom
+        n_ydom += ydom
+        for kd in {s_[0] for s_ in m["steps"]}:
+            hist_wdom.setdefault(kd, [0, 0, 0])
+            hist_wdom[kd][0] += wdom
+            hist_wdom[kd][1] += ydom
+            hist_wdom[kd][2] += 1
         t2 = {"1": True, "0": False, "2": None}[r[0]]
         im = {"1": True, "0": False, "2": None}[r[1]]
         isp, dom, raised = (ch == "1" for ch in r[2:5])
         n_t2 += bool(t2)
         n_dom += dom
         desc = {"program": [step_str(s) for s in m["steps"]], "table": m["table"], "rows": TABLES[m["table"]],
-                "mode": m["mode"], "verdict(t2,impl=model,impl=spec,in_domain,raised,same_bag; 2=n/a)": r,
+                "mode": m["mode"], "verdict(t2,impl=model,impl=spec,in_core_domain,raised,same_bag,in_wide_domain,in_all_alphabet_domain; 2=n/a)": r,
                 "exception": m["exc"], "steps_json": m["steps"], "coq_case": it}
+        if wdom and isp and not raised and im is True:
+            n_wdom_agree += 1
+        if ydom and isp and not raised and im is True:
+            n_ydom_agree += 1
+        n_model += im is not None
         if raised or not isp:
-            ctx.deviation(signature(m["steps"], {"raised": raised, "exc": m["exc"], "same_bag": same_bag, "mode": m["mode"]}),
-                          "collect() differs from the sequential PySpark meaning" if not raised else f"raises {m['exc']}",
-                          desc)
+            devs.append((len(m["steps"]), len(TABLES[m["table"]]), len(devs),
+                         signature(m["steps"], {"raised": raised, "exc": m["exc"], "same_bag": same_bag, "mode": m["mode"]}),
+                         "collect() differs from the sequential PySpark meaning" if not raised else f"raises {m['exc']}",
+                         desc))
         elif im is False:
             model_fail.append(desc)
         elif t2 is False:
@@ -647,15 +834,17 @@ def run(ctx: core.Ctx):
             n_nontriv += 1
         if len(ctx.samples) < 4 and len(m["steps"]) >= 3 and m["table"] != "empty":
             ctx.sample({"program": desc["program"], "table": m["table"], "verdict": r})
+    for _, _, _, sig, what, desc in sorted(devs, key=lambda d: d[:3]):   # shortest program / smallest table first
+        ctx.deviation(sig, what, desc)
     if model_fail:
         ctx.broken("T3:impl-vs-model", f"{len(model_fail)} cases where collect() equals the spec but not the model; "
                    f"first: {model_fail[0]['program']}", data=model_fail[:5])
     if t2_fail:
         first = t2_fail[0]
-        first["nf(exported) vs nf(model)"] = ctx.coq_eval(
-            HEADER, f"let k := {first['coq_case']} in let ics := cols (xc_input k) in "
-                    "(option_map (nf ics) (xc_exported k), "
-                    "option_map (fun d => nf ics (done d ++ [cur d])) (run_x gen_cfg (deco_of decorator_table) (init_df ics) (xc_ops k)))")
+        first["snf(exported) vs snf(model)"] = ctx.coq_eval(
+            HEADER, f"let k := {first['coq_case']} in let ics := cols (yc_input k) in "
+                    "(option_map (snf ics) (yc_exported k), "
+                    "option_map (fun Y => snf ics (all_stages Y)) (run_y gen_cfg gen_g (deco_of decorator_table) (init_y ics) (yc_ops k)))")
         ctx.broken("T2:tree-vs-model", f"{len(t2_fail)} programs whose exported SQL tree differs from the model's normal form; "
                    f"first: {first['program']}", data=t2_fail[:5])
     # ---- spec conformance: the Coq spec (spec_xrun) against answers recorded from PySpark 3.5.9
@@ -674,7 +863,7 @@ def run(ctx: core.Ctx):
             cm = {"seq": "XSeq", "bag": "XBag", "sub": f"(XSubOf {natlit(lim if isinstance(lim, int) else 0)})",
                   "dedup": "(XDedup " + listlit([strlit(c) for c in (lim if isinstance(lim, list) else [])]) + ")"}[rc["mode"]]
             impl = f"(Some ({listlit([strlit(c) for c in rc['cols']])}, {listlit([rel.row_coq(tuple(r)) for r in rc['result']])}))"
-            ritems.append(f"(mkXCase {rel.frame_coq(COLS0, TABLES[rc['table']])} {listlit([step_coq(st) for st in steps])} {cm} None {impl})")
+            ritems.append(f"(mkYCase {rel.frame_coq(COLS0, TABLES[rc['table']])} {listlit([step_coq(st) for st in steps])} {cm} None {impl})")
             rmeta.append(rc)
         rres = ctx.cases("c01rec", HEADER, ritems, per_file=200, result_ty="str", fn="check")
         bad = []
@@ -696,6 +885,10 @@ def run(ctx: core.Ctx):
                 "non-trivial = non-empty table and >= 2 operations; distinct by (program text, table)",
         "programs": len(progs), "bounded_exhaustive_programs": n_exh,
         "t2_structurally_equal": n_t2, "t2_exportable": n_exportable, "in_theorem_domain": n_dom,
+        "in_wide_theorem_domain": n_wdom, "in_wide_theorem_domain_and_impl_eq_model_eq_spec": n_wdom_agree,
+        "in_all_alphabet_theorem_domain": n_ydom, "in_all_alphabet_theorem_domain_and_impl_eq_model_eq_spec": n_ydom_agree,
+        "cases_with_a_model_answer": n_model,
+        "theorem_domains_by_operation_kind(cases containing the kind: in C01_partial_wide's domain, in C01_partial_all's domain, total)": hist_wdom,
         "histogram_program_length": hist_len, "histogram_operation_kind": hist_kind, "histogram_compare_mode": hist_mode,
         "impl_raised": n_raise, "pyspark_recordings_checked": n_rec, "pyspark_recordings_disagree": n_rec_bad,
     })
@@ -742,5 +935,7 @@ def replay(ctx: core.Ctx, rp: dict) -> int:
     print("program:", [step_str(s) for s in steps])
     print("sql:", df.sql(optimize=False))
     print("collect():", df.collect())
-    print("verdict recorded:", r.get("verdict(t2,impl=model,impl=spec,in_domain,raised,same_bag; 2=n/a)"))
+    print("verdict recorded:", r.get("verdict(t2,impl=model,impl=spec,in_core_domain,raised,same_bag,in_wide_domain,in_all_alphabet_domain; 2=n/a)")
+          or r.get("verdict(t2,impl=model,impl=spec,in_core_domain,raised,same_bag,in_wide_domain; 2=n/a)")
+          or r.get("verdict(t2,impl=model,impl=spec,in_domain,raised,same_bag; 2=n/a)"))
     return 0
